@@ -3,6 +3,7 @@
 mod cursor;
 mod decode;
 mod files;
+mod iters;
 mod layout;
 mod util;
 
@@ -26,6 +27,9 @@ fn run_scenario(out: &mut TraceOut, family: &str, seed: u64, idx: u64, heavy: bo
         "seeks_v1" => cursor::scn_seeks(out, &mut r, idx, heavy, 1, 60),
         "history" => cursor::scn_history(out, &mut r, idx, heavy, 2, if heavy { 1500 } else { 400 }),
         "history_v1" => cursor::scn_history(out, &mut r, idx, heavy, 1, 300),
+        "ranges" => iters::scn_iters(out, &mut r, idx, heavy, 2, true, false),
+        "prefixes" => iters::scn_iters(out, &mut r, idx, heavy, 2, false, true),
+        "iters_v1" => iters::scn_iters(out, &mut r, idx, heavy, 1, true, true),
         "format" => layout::scn_format(out, &mut r, idx, heavy),
         "cut" => layout::scn_cut(out, &mut r, idx, heavy),
         "unsorted" => layout::scn_unsorted(out, &mut r, idx, heavy),
